@@ -316,6 +316,11 @@ def check_lineage(case):
     with specmod.quiet():
         M = lingen.to_lineage_model(ls, initialize=bool(case["init"]))
     pre_used = False
+    if case.get("pre_reinit") and case["init"]:
+        # initialised a second time before it is copied (as after any structural edit)
+        with specmod.quiet():
+            M.py_initialize()
+        res.label("initialised_twice_before_cloning")
     if case["pre_sim"] and case["init"]:
         lingen.simulate_lineage(M, ls["grid"], seed + 7, 1)
         pre_used = True
@@ -806,6 +811,7 @@ def lineage_cases(draw):
     ls = draw(lingen.lineage_specs(max_pts=32))
     return {"kind": "lineage", "lspec": ls, "init": draw(st.sampled_from([True, True, False])),
             "pre_sim": draw(st.booleans()), "pre_edit": draw(st.sampled_from([0, 0, 13, 21])), "chain": draw(chains()),
+            "pre_reinit": draw(st.integers(0, 2)) == 0,
             "edit": draw(st.sampled_from(["species", "param", "reaction", "volume_rule"])),
             "edit_side": draw(st.sampled_from(["clone", "orig"])), "seed": draw(st.integers(1, 2 ** 40))}
 
